@@ -563,7 +563,46 @@ pub fn explore(cx: &DapCtx, cfg: &DapCfg, part: &mut Part, deadline: Instant, ex
             });
         }
     });
-    let g = shared.into_inner().unwrap();
+    let mut g = shared.into_inner().unwrap();
+    // a finding is reported only if a fresh session reproduces it (known findings are matched by
+    // `finish` and need no second look; the same history is driven at most three more times)
+    {
+        let known: BTreeSet<String> = crate::common::load_known_findings().into_iter().filter(|k| k.kind == "finding").map(|k| k.signature).collect();
+        let mut verdict: BTreeMap<String, bool> = BTreeMap::new();
+        let mut witnesses_tried: BTreeMap<String, u32> = BTreeMap::new();
+        let all = std::mem::take(&mut g.findings);
+        for (f, rp) in &all {
+            if known.contains(&f.sig) || verdict.get(&f.sig) == Some(&true) {
+                continue;
+            }
+            let n = witnesses_tried.entry(f.sig.clone()).or_insert(0);
+            if *n >= 2 {
+                continue; // two witnesses of this signature have been tried
+            }
+            *n += 1;
+            let path: Vec<Sym> = serde_json::from_value(rp["path"].clone()).unwrap_or_default();
+            let slow = f.sig.contains(":no-answer-within-") || f.sig.contains(":adapter-hung:");
+            let mut ok = false;
+            for _ in 0..if slow { 1 } else { 3 } {
+                let d = drive(cx, cfg, &path, extra_oracle);
+                g.replayed += path.len() as u64;
+                let again = d.findings.iter().any(|x| x.sig == f.sig) || ((f.sig.contains(":adapter-crashed:") || f.sig.contains(":adapter-hung:")) && d.error.is_some());
+                if again {
+                    ok = true;
+                    break;
+                }
+            }
+            let e = verdict.entry(f.sig.clone()).or_insert(false);
+            *e = *e || ok;
+        }
+        for (f, rp) in all {
+            if known.contains(&f.sig) || verdict.get(&f.sig) == Some(&true) {
+                g.findings.push((f, rp));
+            } else {
+                g.unreproducible.push(format!("[{}] finding {} seen once and not reproduced by fresh sessions: {}", cx.p.name(), f.sig, f.detail.chars().take(300).collect::<String>()));
+            }
+        }
+    }
     part.states += g.known.len() as u64;
     part.transitions += g.transitions;
     part.evaluations += g.transitions + g.replayed;
@@ -720,8 +759,15 @@ fn walk(cx: &DapCtx, cfg: &DapCfg, shared: &Mutex<Shared>, start_key: String, fi
                 let before = m.clone();
                 update_model(cx, &mut m, &a, &o);
                 extra_oracle(cx, &before, &mut m, &a, &o, &hist, &mut fs);
+                let dead = fs.iter().any(|f| f.sig.contains(":no-answer-within-"));
                 for f in fs {
                     g.findings.push((f, replay_of(&path)));
+                }
+                if dead {
+                    // the adapter thread no longer answers: whatever is sent next says nothing
+                    drop(g);
+                    sess.kill();
+                    return;
                 }
                 let evs: Vec<String> = o["wire"].as_array().map(|w| w.iter().map(|x| x["event"].as_str().map(|e| e.to_string()).unwrap_or_else(|| format!("resp:{}", x["success"]))).filter(|e| e != "output").collect()).unwrap_or_default();
                 g.outcomes.insert(format!("{}:{}", a.command(), evs.join(",")));
